@@ -397,6 +397,7 @@ pub fn run(args: &Args, seed: u64, tier: &str, report: &Report) -> String {
         wild: true,
         focus: false,
         dfs_depth: if only_hostile { 0 } else { 2 },
+        three_men: thorough && !only_hostile,
     };
     let hostile: u64 = if thorough { 60_000_000 } else { 2_500_000 } * scale;
     let roots = corpus_roots();
